@@ -7,10 +7,11 @@
 EXTENDS MergeA, TraceIO
 VARIABLE l
 Ev == TraceLog[l]
+
 Step ==
     CASE Ev.e = "reset" -> TRUE
       [] Ev.e = "merge" /\ ~Ev.parallel -> RunOK(Ev.seqs, Ev.len, Ev.stable, Ev.out, Ev.ret, Ev.adv)
-      [] Ev.e = "merge" /\ Ev.parallel -> ValuesOK(Ev.seqs, Ev.len, Ev.stable, Ev.out, Ev.ret, Ev.adv) /\ Ev.writes_ok /\ Ev.problems = 0
+      [] Ev.e = "merge" /\ Ev.parallel -> Ev.writes_ok /\ Ev.problems = 0 /\ ValuesOK(Ev.seqs, Ev.len, Ev.stable, Ev.out, Ev.ret, Ev.adv)
       [] OTHER -> FALSE
 TInit == l = 1 /\ seqs = <<>> /\ stable = FALSE /\ taken = <<>> /\ out = <<>>
 TNext == l <= TraceLen /\ Step /\ l' = l + 1 /\ UNCHANGED vars
